@@ -15,10 +15,15 @@ def cleanUpState : M Unit := do
   modifyRest fun r => { r with hx := r.hx.map fun e => (e.1, { e.2 with scores := [] }) }
   let ix ← getIx
   let r ← getRest
+  -- (repo fix 7dd9b7a, formerly finding `cleanup-dangling-parent` of C11): `needed_parent_uids` — an instance that a flow with
+  -- `activated > 0` names as its parent stays (its `flow_id` is looked up when that flow is deactivated / restarted)
+  let needed : List (Option FUid) := r.fx.filterMap fun e => if e.2.activated > 0 then some e.2.parentUid else none
   let mut toRemove : List FUid := []
   for i in ix.insts do
     match OMap.lookup i.uid r.fx with
-    | some x => if i.status.done && r.clock - x.statusUpdated > 5 && x.activated = 0 then toRemove := toRemove ++ [i.uid]
+    | some x =>
+      if i.status.done && r.clock - x.statusUpdated > 5 && x.activated = 0 && !needed.contains (some i.uid) then
+        toRemove := toRemove ++ [i.uid]
     | none => unsupported "instance without extras"
   for u in toRemove do
     let x ← getInstX u
@@ -274,11 +279,10 @@ def startFlow (f : FUid) (evArgs : List (String × Val)) : M Unit := do
     if (lookupArg s!"${lastIdx + 1}" evArgs).isSome then
       pyRaise "ColangRuntimeError" s!"To many parameters provided in start of flow '{x.flowId}'"
 
-def handleEventMatching (event : Event) (headsMatching : List Key) : M Unit := do
-  for k in headsMatching do
+/-- the body of the try block of `_handle_event_matching` for one matched head (element and flow state are looked up
+    in front of the try block) -/
+def handleMatch (event : Event) (k : Key) (cfg : FlowCfg) (hd : Head) : M Unit := do
     let f := k.1
-    let cfg ← cfgOfInst f
-    let some hd ← getHead? k | unsupported "matching head vanished"
     match cfg.elements[hd.pos]? with
     | some (.matchOp spec _) | some (.sendOp spec) | some (.newAction spec) =>
       match spec.ref with
@@ -301,6 +305,23 @@ def handleEventMatching (event : Event) (headsMatching : List Key) : M Unit := d
             | some _ => unsupported "non-string source_flow_instance_uid"
             | none => pyRaise "KeyError" "source_flow_instance_uid"
           modInstX f fun y => { y with scopes := OMap.modify sc (fun p => (p.1 ++ [src], p.2)) y.scopes }
+
+/-- `_handle_event_matching(state, event, heads_matching)` (fixes/C10-handle-match-error-contained.diff): the work per head runs
+    inside a try block; a runtime error is reported as `ColangError` and the head is handed back to the caller, which fails
+    its flow together with the other erroring heads -/
+def handleEventMatching (event : Event) (headsMatching : List Key) : M (List Key) := do
+  let mut headsErroring : List Key := []
+  for k in headsMatching do
+    let cfg ← cfgOfInst k.1
+    let some hd ← getHead? k | unsupported "matching head vanished"
+    match ← attemptPy (handleMatch event k cfg hd) with
+    | .ok _ => pure ()
+    | .error (c, m) =>
+      -- a runtime error while handling the match fails only the flow of this head
+      pushEvent (colangErrorEvent c m)
+      modifyRest fun r => { r with caught := r.caught ++ [s!"handle: {c}: {m}"] }
+      headsErroring := headsErroring ++ [k]
+  return headsErroring
 
 /-! ### `_resolve_action_conflicts` -/
 
@@ -382,8 +403,8 @@ def resolveActionConflicts (fuel : Nat) (actionable : List Key) : M (List Key) :
         if sameEvent then
           match winning.kind, winning.actionUid, competing.kind, competing.actionUid with
           | .action, some wu, .action, some cu =>
-            if cu ≠ wu then
-              let x ← getInstX k.1
+            -- fixes/C05-cowin-on-borrowed-action.diff: a flow that only holds a reference to an action of another flow keeps it
+            if cu ≠ wu && (← getInstX k.1).actionUids.contains cu then
               for (key, v) in ← getCtx k.1 do
                 match v with
                 | .ref "action" u =>
@@ -393,14 +414,14 @@ def resolveActionConflicts (fuel : Nat) (actionable : List Key) : M (List Key) :
                     | none => pyRaise "KeyError" wu
                     setCtxVar k.1 key (.ref "action" wu)
                 | _ => pure ()
-              if !x.actionUids.contains cu then pyRaise "ValueError" "is not in list"
+              -- (`action_uids.index(uid)` cannot raise: membership was tested above and the loop does not touch the list)
               let rec replaceFirst : List String → List String
                 | [] => []
                 | y :: ys => if y = cu then wu :: ys else y :: replaceFirst ys
               modInstX k.1 fun y => { y with actionUids := replaceFirst y.actionUids }
               -- (repair 2a6b31b, formerly finding `dangling-scope-action`): scopes that registered the replaced action refer to the winning one
               modInstX k.1 fun y => { y with scopes := y.scopes.map fun (n, (fl, al)) => (n, (fl, al.map fun u => if u = cu then wu else u)) }
-              if (← getAction? cu).isNone then pyRaise "KeyError" cu
+              -- fixes/C05-cowin-double-delete.diff: `state.actions.pop(uid, None)`
               modifyRest fun r => { r with actions := OMap.erase cu r.actions }
           | _, _, _, _ => pure ()
           advancing := advancing ++ [k]
@@ -415,6 +436,11 @@ def resolveActionConflicts (fuel : Nat) (actionable : List Key) : M (List Key) :
     return advancing
 
 /-! ### the three nested loops of `run_to_completion` -/
+
+/-- `list.remove(head)` on a list of heads (first occurrence) -/
+def listRemoveKey (k : Key) : List Key → List Key
+  | [] => []
+  | y :: ys => if y = k then ys else y :: listRemoveKey k ys
 
 /-- one internal event (the body of `while state.internal_events`) -/
 def processEvent (fuel : Nat) (event : Event) (actionable : List Key) : M (List Key) := do
@@ -472,7 +498,10 @@ def processEvent (fuel : Nat) (event : Event) (actionable : List Key) : M (List 
   let r ← getRest
   let scoresOf := fun (kk : Key) => ((OMap.lookup kk r.hx).getD {}).scores
   headsMatching := sortDesc scoresOf headsMatching
-  handleEventMatching event headsMatching
+  -- `for head in _handle_event_matching(…): heads_matching.remove(head); heads_erroring.append(head)`
+  for k in ← handleEventMatching event headsMatching do
+    headsMatching := listRemoveKey k headsMatching
+    headsErroring := headsErroring ++ [k]
   if event.ev.kind = .action then updateActionStatusByEvent event.ev
   for k in headsFailing do
     let hx ← getHeadX k
